@@ -49,3 +49,21 @@ Proof.
   - apply Forall_app. split; [exact H2|]. constructor; [|constructor]. intros j Hj. discriminate.
 Qed.
 
+
+(* ---------- the emitter consumes events strictly left to right: what is written for a prefix of the event stream is decided by that prefix alone,
+   and a failing event ends the run with exactly what had been written (C12 prefix stability, C19 writes-before-fault) ---------- *)
+Fixpoint emit_state (evs : list event) (s : st) : st + (list (list N) * res unit) :=
+  match evs with
+  | [] => inl s
+  | e :: evs' => match emit1 e s with
+                 | Ok (_, s') => emit_state evs' s'
+                 | EmitErr c o => inr (rev o, EmitErr c o) | Crash x o => inr (rev o, Crash x o) | OutOfFuel => inr (rev (out s), OutOfFuel) end
+  end.
+Lemma l_emit_all_app es1 : forall es2 s,
+  emit_all (es1 ++ es2) s = match emit_state es1 s with inl s' => emit_all es2 s' | inr r => r end.
+Proof.
+  induction es1 as [|e es1 IH]; intros es2 s; cbn [app emit_all emit_state]; [reflexivity|].
+  destruct (emit1 e s) as [[u s']|c o|x o|]; try reflexivity. apply IH.
+Qed.
+Lemma l_emit_all_prefix_error es1 es2 s r : emit_state es1 s = inr r -> emit_all (es1 ++ es2) s = r.
+Proof. intros H. rewrite l_emit_all_app, H. reflexivity. Qed.
